@@ -15,6 +15,8 @@ import (
 // ---- C17: proxy hygiene ---------------------------------------------------------
 
 type C17Case struct {
+	// SpoofRoute: what the spoofed envelope carries in its route record / return route (sender-controlled fields)
+	SpoofRoute string `json:"spoof_route,omitempty"`
 	// DeafRead: the bad peer's transport ignores the context passed to Read (as a net.Conn without deadlines does)
 	DeafRead bool `json:"deaf_read,omitempty"`
 	// ErrKind: the error value the failing transport returns (kit.FaultErrKinds)
@@ -37,6 +39,7 @@ func genC17(t *rapid.T) C17Case {
 	c := C17Case{Mode: rapid.SampledFrom([]string{"spoof", "badpeer", "reattach", "cancel", "attach-race"}).Draw(t, "mode"), Ser: rapid.Bool().Draw(t, "ser")}
 	c.ErrKind = rapid.SampledFrom(kit.FaultErrKinds).Draw(t, "err_kind")
 	c.DeafRead = rapid.Bool().Draw(t, "deaf_read")
+	c.SpoofRoute = rapid.SampledFrom([]string{"", "", "record-own", "record-victim-own", "record-proxy", "next-own"}).Draw(t, "spoof_route")
 	c.Spoof = rapid.SampledFrom([]string{"other-source", "empty-source", "no-header", "unattached-source"}).Draw(t, "spoof")
 	c.Role = rapid.SampledFrom([]string{"stuck-writer", "failing-reader", "failing-writer", "dial-error", "slow-dial", "slow-failing-dial", "both-fail-busy"}).Draw(t, "role")
 	c.OldFailsFirst = rapid.Bool().Draw(t, "old_first")
@@ -120,6 +123,19 @@ func execC17(t *testing.T, c C17Case) (v Verdict) {
 				bad = &kit.Rpc{Id: 900, Body: &goatorepo.Body{Data: []byte("x")}}
 			default:
 				bad = pxEnv("nobody", "c1", 900)
+			}
+			if bad.GetHeader() != nil {
+				// the other routing fields are the sender's to fill in too: none of them makes a claimed source true
+				switch c.SpoofRoute {
+				case "record-own":
+					bad.Header.ProxyRecord = []string{"c0"}
+				case "record-victim-own":
+					bad.Header.ProxyRecord = []string{bad.Header.Source, "c0"}
+				case "record-proxy":
+					bad.Header.ProxyRecord = []string{"px"}
+				case "next-own":
+					bad.Header.ProxyNext = []string{"c0"}
+				}
 			}
 			_ = c0.A.Write(bg, bad)
 			kit.Settle()
@@ -325,15 +341,19 @@ func execC17(t *testing.T, c C17Case) (v Verdict) {
 	_ = dials
 	_ = disconnects
 	label := "mode=" + c.Mode
+	var labels []string
 	switch c.Mode {
 	case "spoof":
 		label += "/" + c.Spoof
+		if c.SpoofRoute != "" {
+			labels = append(labels, "spoof.route_fields=true")
+		}
 	case "badpeer":
 		label += "/" + c.Role
 	case "reattach":
 		label += fmt.Sprintf("/old_first=%v/%s", c.OldFailsFirst, c.FailKind)
 	}
-	labels := []string{label}
+	labels = append(labels, label)
 	if c.Mode == "badpeer" {
 		labels = append(labels, fmt.Sprintf("badpeer.deaf_read=%v", c.DeafRead))
 	}
